@@ -32,6 +32,12 @@ type ake struct {
 	state authState
 	keys  keyManagementContext
 
+	// results of the exchange in progress; they replace the values of the
+	// established session only when the exchange completes
+	ssid          [8]byte
+	theirKey      PublicKey
+	sentRevealSig bool
+
 	lastStateChange time.Time
 }
 
@@ -50,7 +56,10 @@ func (c *Conversation) initAKE() {
 }
 
 func (c *Conversation) calcAKEKeys(s *big.Int) {
-	c.ssid, c.ake.revealKey, c.ake.sigKey = calculateAKEKeys(s, c.version)
+	c.ake.ssid, c.ake.revealKey, c.ake.sigKey = calculateAKEKeys(s, c.version)
+	if c.msgState != encrypted {
+		c.ssid = c.ake.ssid
+	}
 }
 
 func (c *Conversation) setSecretExponent(val secretKeyValue) {
@@ -290,7 +299,7 @@ func (c *Conversation) processSig(msg []byte) (err error) {
 }
 
 func (c *Conversation) checkedSignatureVerification(mb, sig []byte) error {
-	rest, ok := c.theirKey.Verify(mb, sig)
+	rest, ok := c.ake.theirKey.Verify(mb, sig)
 	if !ok {
 		return newOtrError("bad signature in encrypted signature")
 	}
@@ -317,7 +326,7 @@ func verifyEncryptedSignatureMAC(encryptedSig []byte, theirMAC []byte, keys *ake
 func (c *Conversation) parseTheirKey(key []byte) (sig []byte, keyID uint32, err error) {
 	var rest []byte
 	var ok, ok2 bool
-	rest, ok, c.theirKey = ParsePublicKey(key)
+	rest, ok, c.ake.theirKey = ParsePublicKey(key)
 	sig, keyID, ok2 = ExtractWord(rest)
 	if !(ok && ok2) {
 		return nil, 0, errCorruptEncryptedSignature
@@ -327,7 +336,7 @@ func (c *Conversation) parseTheirKey(key []byte) (sig []byte, keyID uint32, err 
 }
 
 func (c *Conversation) expectedMessageHMAC(keyID uint32, keys *akeKeys) []byte {
-	verifyData := appendAll(c.ake.theirPublicValue, c.ake.ourPublicValue, c.theirKey, keyID)
+	verifyData := appendAll(c.ake.theirPublicValue, c.ake.ourPublicValue, c.ake.theirKey, keyID)
 	return sumHMAC(keys.m1, verifyData, c.version)
 }
 
